@@ -6,6 +6,8 @@
      whose projected lower bound does not exceed the upper bound of s lies within the emitted range, y <= s + range[s]
      (so the sweep enumerates every pair whose projections overlap: a superset of what all-pairs would keep after the
      same filters), and the range stays inside the segment.
+ (A) collision_driver._aabb_filter is conservative: it rejects a pair only if every point of box 1 is farther than
+     margin1 + margin2 from every point of box 2 along some world axis.
  (T) math.upper_tri_index is a bijection from {0 <= i < j < n} onto [0, n(n-1)/2): in range and injective -- the pair
      table of the all-pairs broadphase and the pair-id lookup of the sweep address the same entry for the same pair.
 """
@@ -23,7 +25,7 @@ INFO = {
     "a geom lies inside the bounding volumes the filters test (geom_rbound / geom_aabb from the MuJoCo compiler)",
   ],
   "undecided": [
-    "the work-package decode of _sap_broadphase (cumulative sum + binary search over worlds), the bounding-volume filters themselves (_sphere_filter, _aabb_filter, _obb_filter, _plane_filter) and the margins they use (D9, explicit pair margins ignored by the filters, was repaired in /repo and is guarded by C19's filter_bypass obligation)",
+    "the work-package decode of _sap_broadphase (cumulative sum + binary search over worlds), the other bounding-volume filters (_sphere_filter, _obb_filter, _plane_filter) and the margins the filters use (D9, explicit pair margins ignored by the filters, was repaired in /repo and is guarded by C19's filter_bypass obligation)",
     "equality of the resulting contact multisets (narrowphase is shared; not a per-function postcondition)",
   ],
 }
@@ -119,5 +121,120 @@ def g_tri(tier):
   return obs
 
 
+def g_aabb(tier):
+  """(A) collision_driver._aabb_filter never rejects a pair that could touch: for ANY point of box 1 (centre center1,
+  half sizes size1, frame xmat1 / xpos1) and ANY point of box 2, if the filter returns False then the two world points
+  differ by more than margin1 + margin2 along some world axis (so their distance exceeds the margin). No assumption on
+  xmat (it need not be a rotation). Cut into steps: (1) |u| <= h -> r*u <= r*h or r*u <= -r*h, per matrix entry;
+  (2) the extreme corner projections bound the projection of every box point, per box and axis; (3) the conclusion."""
+  from wpv.contracts import Obligation
+  from wpv.sym import tobool, zb
+
+  key = "collision_driver:_aabb_filter"
+  R = Run(key, pre=[f"size{b}[{i}] >= 0.0" for b in (1, 2) for i in range(3)])
+  T = lambda text: zb(tobool(R.term(text)))
+  for b in (1, 2):
+    for i in range(3):
+      R.var(f"u{b}_{i}", "float")
+  inside = " and ".join(f"abs(u{b}_{i}) <= size{b}[{i}]" for b in (1, 2) for i in range(3))
+  ax = "xyz"
+  proj = lambda b, k: "(" + " + ".join(f"xmat{b}[{k}, {i}]*u{b}_{i}" for i in range(3)) + ")"
+  obs = [canary(R, "_aabb_filter#canary")]
+  lem = {}
+  for b in (1, 2):
+    for k in range(3):
+      for i in range(3):
+        r, u, h = f"xmat{b}[{k}, {i}]", f"u{b}_{i}", f"size{b}[{i}]"
+        for sgn, nm in (("", "hi"), ("-", "lo")):
+          # hi: r*u <= |r|*h ; lo: r*u >= -|r|*h, written without abs as a disjunction / conjunction over the sign of r
+          text = f"implies(abs({u}) <= {h}, ({r}*{u} <= {r}*{h} or {r}*{u} <= -{r}*{h}))" if nm == "hi" else f"implies(abs({u}) <= {h}, ({r}*{u} >= {r}*{h} or {r}*{u} >= -{r}*{h}))"
+          lem[(b, k, i, nm)] = T(text)
+          obs.append(Obligation(f"_aabb_filter#lemma.box{b}.{ax[k]}{i}.{nm}", [], T(text), func=key, kind="lemma", meta={"function": key, "source_hash": R.info.source_hash, "goal": "|u| <= h bounds r*u by the larger of r*h and -r*h: " + text[:120], "timeout_ms": 20000}))
+  from wpv.sym import Unsupported
+
+  step = []
+  aids = True
+  try:
+    for b in (1, 2):
+      for k in range(3):
+        hi = f"implies({inside}, {proj(b, k)} <= max_{ax[k]}{b})"
+        lo = f"implies({inside}, {proj(b, k)} >= min_{ax[k]}{b})"
+        for nm, text in (("hi", hi), ("lo", lo)):
+          ob = R.obligation(f"_aabb_filter#corner_bounds.box{b}.{ax[k]}.{nm}", text, extra_assume=[lem[(b, k, i, nm)] for i in range(3)], meta={"goal": f"the {'largest' if nm == 'hi' else 'smallest'} corner projection on world axis {ax[k]} bounds the projection of every point of box {b}", "timeout_ms": 30000})
+          obs.append(ob)
+          step.append(T(text))
+  except (Unsupported, KeyError):
+    # the intermediate steps name locals of the current implementation (max_x1 ...); without them the conclusion is
+    # still stated and attempted, only without these proof aids
+    step, aids = [], False
+  wc = lambda b, k: "(" + " + ".join(f"xmat{b}[{k}, {i}]*center{b}[{i}]" for i in range(3)) + f" + xpos{b}[{k}])"  # world centre (center1 / center2 name the parameters here)
+  q = lambda b, k: f"({wc(b, k)} + {proj(b, k)})"
+  sep = " or ".join(f"{q(1, k)} + margin1 + margin2 < {q(2, k)} or {q(2, k)} + margin1 + margin2 < {q(1, k)}" for k in range(3))
+  concl = f"implies({inside} and not result, {sep})"
+  # counter-model search (a model of query + hint is a model of the query): touching points, frames whose |matrix| is not symmetric
+  eye = (1, 0, 0, 0, 1, 0, 0, 0, 1)
+  frames = [(1, 1, 0, 0, 1, 0, 0, 0, 1), (1, 0, 0, 0, 1, 1, 0, 0, 1), (1, 0, 1, 0, 1, 0, 0, 0, 1), (1, 0, 0, 1, 1, 0, 0, 0, 1)]
+  cases = []
+  for fr in frames:
+    for u in ((1, 0, 0), (0, 1, 0), (0, 0, 1)):
+      w = [sum(fr[3 * k + i] * u[i] for i in range(3)) for k in range(3)]
+      for one in (1, 2):
+        two = 3 - one
+        cases.append(({f"xmat{one}": fr, f"xmat{two}": eye, f"center{one}": (0, 0, 0), f"center{two}": w, f"size{one}": u, f"size{two}": (0, 0, 0), "xpos1": (0, 0, 0), "xpos2": (0, 0, 0), "margin1": (0.125,), "margin2": (0.125,)}, {f"u{one}_{i}": float(u[i]) for i in range(3)} | {f"u{two}_{i}": 0.0 for i in range(3)}))
+
+  def pins(case):
+    vals, us = case
+    out = []
+    for name, v in vals.items():
+      if len(v) == 9:
+        out += [T(f"{name}[{i // 3}, {i % 3}] == {float(x)}") for i, x in enumerate(v)]
+      elif len(v) == 3:
+        out += [T(f"{name}[{i}] == {float(x)}") for i, x in enumerate(v)]
+      else:
+        out.append(T(f"{name} == {float(v[0])}"))
+    return out + [T(f"{k} == {x}") for k, x in us.items()]
+
+  search = [pins(c) for c in cases]
+
+  def native(model, ob):
+    import json
+    import os
+
+    from wpv import replay as rp
+    from wpv.contracts import _num
+    from wpv.sym import Vec, lift
+
+    here = os.path.dirname(os.path.dirname(os.path.abspath(__file__)))
+    os.makedirs(os.path.join(here, "replay"), exist_ok=True)
+    path = os.path.join("replay", "func__aabb_filter_rejects_only_separated_boxes.input.json")
+    kinds = {1: "float", 3: "vec3", 9: "mat33"}
+    names = [a_.arg for a_ in R.info.node.args.args]
+
+    def run(params, extra, what):
+      with open(os.path.join(here, path), "w") as f:
+        json.dump({"module": "collision_driver", "func": "_aabb_filter", "params": params, "ret": ["bool"], "requires": [f"size{b}[{i}] >= 0.0" for b in (1, 2) for i in range(3)], "clause": concl, "extra": extra}, f, indent=1)
+      cmd = ["VENV_PYTHON", "scenarios/replay_func.py", path]
+      rc, out = rp.run_native(cmd)
+      return {"native_cmd": cmd, "exit": rc, "reproduced": rc == 1, "input": what, "meaning": "exit 1: the real _aabb_filter rejects two boxes that share a point although the margins are positive; 0: it does not; 2: not executable", "output": out[-2000:]}
+
+    res = None
+    if model is not None:
+      val = lambda t: _num(model, lift(t, "float"))
+      params = [[n, kinds[len(R.params[n].comps) if isinstance(R.params[n], Vec) else 1], [val(c) for c in (R.params[n].comps if isinstance(R.params[n], Vec) else [R.params[n]])]] for n in names]
+      res = run(params, {f"u{b}_{i}": val(R.qvars[f"u{b}_{i}"]) for b in (1, 2) for i in range(3)}, "the solver's counter-model")
+      if res["reproduced"]:
+        return res
+    # the solver's model may sit exactly on the boundary (touching boxes, zero margin), which float comparison with a
+    # tolerance does not separate: the pinned inputs of the counter-model search have a clear gap; run them natively
+    for vals, us in cases[:8]:
+      r2 = run([[n, kinds[len(vals[n])], [float(x) for x in vals[n]]] for n in names], us, "pinned input of the counter-model search")
+      if r2["reproduced"]:
+        return r2
+    return res or {"reproduced": None, "note": "no model object"}
+
+  obs.append(R.obligation("_aabb_filter#rejects_only_separated_boxes", concl, extra_assume=step, meta={"goal": "if the filter rejects the pair, any point of box 1 and any point of box 2 are farther apart than margin1 + margin2 along a world axis", "timeout_ms": 60000 if aids else 20000, "proof_aids": "corner bounds" if aids else "none (locals of the implementation not found)", "sat_hints": search, "replay": native}))
+  return obs
+
+
 def groups(tier):
-  return [("binary_search", g_binary_search), ("sap_range", g_sap_range), ("upper_tri_index", g_tri)]
+  return [("binary_search", g_binary_search), ("sap_range", g_sap_range), ("upper_tri_index", g_tri), ("aabb_filter", g_aabb)]
